@@ -6,11 +6,45 @@ def sortedHashes : List Hash → Bool
   | [_] => true
   | a :: b :: rest => bytesCmp a b != .gt && sortedHashes (b :: rest)
 
+/-- tail-recursive form of `sortedHashes`, used by the compiled driver (`sortedHashes_eq_TR`): a
+    file of tens of thousands of entries is checked without deep recursion -/
+def sortedFrom (prev : Hash) : List Hash → Bool
+  | [] => true
+  | b :: rest => if bytesCmp prev b == .gt then false else sortedFrom b rest
+
+def sortedHashesTR : List Hash → Bool
+  | [] => true
+  | a :: l => sortedFrom a l
+
+theorem sortedHashes_cons_eq (a : Hash) (l : List Hash) : sortedHashes (a :: l) = sortedFrom a l := by
+  induction l generalizing a with
+  | nil => simp [sortedHashes, sortedFrom]
+  | cons b rest ih =>
+    simp only [sortedHashes, sortedFrom]
+    rw [ih b]
+    cases bytesCmp a b <;> simp
+
+@[csimp] theorem sortedHashes_eq_TR : @sortedHashes = @sortedHashesTR := by
+  funext l
+  cases l with
+  | nil => rfl
+  | cons a l => exact sortedHashes_cons_eq a l
+
 /-- fan-out table consistent with the entries: 256 counters, counter k = number of entries whose
     first byte is ≤ k -/
 def fanoutOk (f : HSFile) : Bool :=
   f.fanout.length == 256 &&
   (f.fanout.zipIdx).all (fun (c, k) => c == (f.entries.filter (fun h => firstByte h ≤ k)).length)
+
+/-- `fanoutOk` counting in place instead of building 256 filtered lists; the compiled driver uses
+    it (`fanoutOk_eq_C`) -/
+def fanoutOkC (f : HSFile) : Bool :=
+  f.fanout.length == 256 &&
+  (f.fanout.zipIdx).all (fun (c, k) => c == f.entries.countP (fun h => firstByte h ≤ k))
+
+@[csimp] theorem fanoutOk_eq_C : @fanoutOk = @fanoutOkC := by
+  funext f
+  simp [fanoutOk, fanoutOkC, List.countP_eq_length_filter]
 
 /-- invariant of a flushed file -/
 def hsInv (f : HSFile) : Bool := f.fanout.isEmpty && f.entries.isEmpty || (sortedHashes f.entries && fanoutOk f)
